@@ -235,6 +235,16 @@ func genTailCase(r *rand.Rand, idx int) *ccase {
 		c.DB.ErrAt = r.Intn(3)
 	}
 	c.Client = []string{"ws-read", "ws-read", "ws-close", "ws-plain"}[r.Intn(4)]
+	// pinned: a tail that never has a line to send (nothing stored, or the database failing), left by a client that
+	// just drops the connection
+	switch idx % 5 {
+	case 0:
+		c.DB.Mode, c.DB.Shape, c.DB.Twist, c.Client = "ok", "empty", "", "ws-read"
+	case 1:
+		c.DB.Mode, c.DB.Twist, c.Client = "err-open", "", "ws-close"
+	case 2:
+		c.DB.Mode, c.DB.Shape, c.DB.Twist, c.Client = "ok", "empty", "", "ws-close"
+	}
 	return c
 }
 
